@@ -53,13 +53,16 @@ def run(prop, tier, seed):
     mod = os.path.join(vlib.SPEC, "props", "C25.tla")
     env = {"TIER": tier, "SEED": str(seed)}
     enum_cases, res_e = vlib.gen_enumerate(prop, mod, env=env, workers=6, timeout=800)
-    nrand = 60 if tier == "quick" else 500
+    nrand = 40 if tier == "quick" else 500
     rand_cases, res_r = vlib.gen_simulate(prop, mod, nrand, seed, env=env, timeout=800,
                                           cfg=os.path.join(vlib.SPEC, "props", "C25R.cfg"))
     cases = enum_cases + rand_cases
     if not cases:
         raise vlib.ToolError("C25 generator produced no cases")
     obs, hwall = vlib.run_harness(cases, wd, timeout=120)
+    broken = sum(1 for o in obs if o.get("compile") != "ok" or o.get("status") in ("abort", "timeout"))
+    if broken * 4 > len(cases):
+        raise vlib.ToolError("%d of %d sorting programs did not compile or were aborted: harness/generator problem" % (broken, len(cases)))
 
     recs = []
     for c, o in zip(cases, obs):
@@ -92,7 +95,7 @@ def run(prop, tier, seed):
     for c, o in zip(cases, obs):
         v = verdicts[c["id"]]
         for f in v["findings"]:
-            rep.finding(f["key"], c, {k: o.get(k) for k in ("compile", "status", "err", "panic", "diag_text", "host")},
+            rep.finding(f["key"], dict(c, id="%s~%s" % (c["id"], f["key"][4:])), {k: o.get(k) for k in ("compile", "status", "err", "panic", "diag_text", "host")},
                         [f], f["what"])
         for m in v["methods"]:
             sorts += 1
